@@ -368,6 +368,8 @@ class Interp:
         if isinstance(e, ast.Call):
             fname = dotted(e.func)
             fval: Optional[V] = None
+            if not isinstance(e.func, (ast.Name, ast.Attribute)):
+                fval = self.eval(e.func, st)  # the callee is computed: TABLE[key](...), factory(x)(y)
             if isinstance(e.func, ast.Attribute):
                 fval = self.eval(e.func.value, st)
             elif isinstance(e.func, ast.Name) and e.func.id in st.env:
@@ -1408,12 +1410,19 @@ class Interp:
                 res = fin
             return res
         if isinstance(s, ast.With):
-            if len(s.items) >= 1 and getattr(self, "on_with", None) is not None:
+            cm0_known: Optional[V] = None
+            is_suppress = isinstance(s.items[0].context_expr, ast.Call) and (dotted(s.items[0].context_expr.func) or "") in ("suppress", "contextlib.suppress")
+            if len(s.items) >= 1 and getattr(self, "on_with", None) is not None and not is_suppress:
                 cm0 = self.eval(s.items[0].context_expr, st)
+                cm0_known = cm0
+                inner = s if len(s.items) == 1 else ast.With(items=s.items[1:], body=s.body)
+                body = s.body if len(s.items) == 1 else [ast.copy_location(inner, s)]
                 if isinstance(cm0, R) and cm0.kind == "ctxmgr":
-                    inner = s if len(s.items) == 1 else ast.With(items=s.items[1:], body=s.body)
-                    body = s.body if len(s.items) == 1 else [ast.copy_location(inner, s)]
                     return self.on_with(cm0, s.items[0].optional_vars, body, st)
+                if isinstance(cm0, Ref) and cm0.kind == "obj" and getattr(self, "on_with_object", None) is not None:
+                    res_o = self.on_with_object(cm0, s.items[0].optional_vars, body, st)
+                    if res_o is not None:
+                        return res_o
             if len(s.items) == 1 and isinstance(s.items[0].context_expr, ast.Call) and (dotted(s.items[0].context_expr.func) or "").split(".")[-1] == "suppress" \
                     and (dotted(s.items[0].context_expr.func) or "") in ("suppress", "contextlib.suppress"):
                 # contextlib.suppress(E, ...): an exception of one of these classes raised by the body ends the block quietly
@@ -1423,8 +1432,8 @@ class Interp:
                     if o.term is not None and o.term[0] == "raise" and any(exc_is(str(o.term[1]), n, self.exc_parents) for n in names):
                         o.term = None
                 return outs_s
-            for it in s.items:
-                cm = self.eval(it.context_expr, st)
+            for idx_w, it in enumerate(s.items):
+                cm = cm0_known if (idx_w == 0 and cm0_known is not None) else self.eval(it.context_expr, st)  # evaluated once
                 st.effects.append(("with-enter", norm(it.context_expr), cm))
                 if it.optional_vars is not None:
                     self._assign(it.optional_vars, R("entered", cm=cm), st)
